@@ -50,6 +50,41 @@ type Ambiguous struct {
 	B int8 `nbt:"b"`
 }
 
+// Diamond: ONE struct type reached through two embedded types at the same depth. Its fields are promoted along two
+// paths, which Go's embedding rules (and encoding/json, whose field-selection rules the nbt package documents as its own)
+// treat as ambiguous: they are dropped. Tagged and untagged, by value and through a pointer, one and two levels down.
+type DLeaf struct {
+	X int32 `nbt:"x"`
+	U int16
+}
+type DLeft struct {
+	DLeaf
+	L int8 `nbt:"l"`
+}
+type DRight struct {
+	DLeaf
+	R int8 `nbt:"r"`
+}
+type Diamond struct {
+	DLeft
+	DRight
+}
+type DLeftP struct {
+	*DLeaf
+	L int8 `nbt:"l"`
+}
+type DiamondPtr struct {
+	DLeftP
+	DRight
+}
+type DMid1 struct{ DLeft }
+type DMid2 struct{ DRight }
+type DiamondDeep struct {
+	DMid1
+	DMid2
+	K int8 `nbt:"k"`
+}
+
 type LeftU struct{ V int32 }
 type RightT struct {
 	V int64 `nbt:"V"`
@@ -188,6 +223,12 @@ func Catalogue() []CatItem {
 			comp("S", str("s"), "a", i64(9)), false},
 		{"ambiguous-equal-depth-dropped", Ambiguous{Left{1}, Right{2}, 3}, func() any { return new(Ambiguous) },
 			comp("b", i8(3)), false},
+		{"diamond-embedding-dropped", Diamond{DLeft{DLeaf{1, 2}, 3}, DRight{DLeaf{4, 5}, 6}}, func() any { return new(Diamond) },
+			comp("l", i8(3), "r", i8(6)), false},
+		{"diamond-embedding-through-pointer-dropped", DiamondPtr{DLeftP{&DLeaf{1, 2}, 3}, DRight{DLeaf{4, 5}, 6}}, func() any { return new(DiamondPtr) },
+			comp("l", i8(3), "r", i8(6)), false},
+		{"diamond-embedding-two-levels-down-dropped", DiamondDeep{DMid1{DLeft{DLeaf{1, 2}, 3}}, DMid2{DRight{DLeaf{4, 5}, 6}}, 7}, func() any { return new(DiamondDeep) },
+			comp("l", i8(3), "r", i8(6), "k", i8(7)), false},
 		{"tagged-beats-untagged", TaggedWins{LeftU{1}, RightT{2}}, func() any { return new(TaggedWins) },
 			comp("V", i64(2)), false},
 		{"embedded-with-name-is-a-field", NamedEmbed{Inner{1, "s"}, 2}, func() any { return new(NamedEmbed) },
